@@ -191,6 +191,8 @@ pub struct World<'e, 'd> {
     font: Option<Font<AnyProvider<'d>>>,
     filter: Option<u8>,
     outl: Option<Outl>,
+    /// C09 under faults: record which source glyphs of a subset are readable.
+    pub want_source_ok: bool,
     // Declared last: dropped after everything that borrows from it.
     arena: Vec<Box<[u8]>>,
 }
@@ -321,8 +323,39 @@ impl<'e, 'd> World<'e, 'd> {
             font: None,
             filter: None,
             outl: None,
+            want_source_ok: false,
             arena: Vec::new(),
         }
+    }
+
+    /// Which of `ids` have a source outline that can be visited (fresh outline table).
+    fn source_ok(&mut self, ids: &[u16]) -> Option<Vec<bool>> {
+        if !self.want_source_ok || ids.len() > 3000 {
+            return None;
+        }
+        let mut seen = BTreeSet::new();
+        if !ids.iter().all(|g| seen.insert(*g)) {
+            return None;
+        }
+        let mut outl = self.load_outl().ok()?;
+        let mut v = Vec::with_capacity(ids.len());
+        for g in ids {
+            let mut sink = Sink::default();
+            let ok = match &mut outl {
+                Outl::Glyf { glyf, .. } => glyf.visit(*g, &mut sink).is_ok(),
+                Outl::Cff(cff) => cff.visit(*g, &mut sink).is_ok(),
+                Outl::Cff2(cff2) => {
+                    let mut o = CFF2Outlines {
+                        table: &**cff2,
+                        tuple: None,
+                    };
+                    o.visit(*g, &mut sink).is_ok()
+                }
+                Outl::Unavailable(_) => false,
+            };
+            v.push(ok);
+        }
+        Some(v)
     }
 
     /// Configuration mutators seen so far (replayed on the C03 reference world).
@@ -763,10 +796,12 @@ impl<'e, 'd> World<'e, 'd> {
                 };
                 match subset::subset(&provider, ids) {
                     Ok(bytes) => {
+                        let source_ok = self.source_ok(ids);
                         extra.written = Some(Written {
                             bytes: bytes.clone(),
                             kind: WrittenKind::Sfnt,
                             glyphs: Some(ids.len()),
+                            source_ok,
                         });
                         OpOut::ok(bytes_digest(&bytes))
                     }
@@ -793,7 +828,15 @@ impl<'e, 'd> World<'e, 'd> {
                 let bare_cff = provider.has_table(tag::CFF) || provider.has_table(tag::CFF2);
                 match subset::prince::subset(&provider, ids, target_v, *cid) {
                     Ok(bytes) => {
+                        // CFF2 sources are converted to CFF at the default instance; only
+                        // same-format outlines are compared
+                        let source_ok = if provider.has_table(tag::CFF2) {
+                            None
+                        } else {
+                            self.source_ok(ids)
+                        };
                         extra.written = Some(Written {
+                            source_ok,
                             bytes: bytes.clone(),
                             kind: if bare_cff {
                                 WrittenKind::BareCff
@@ -821,6 +864,7 @@ impl<'e, 'd> World<'e, 'd> {
                             bytes: bytes.clone(),
                             kind: WrittenKind::Whole,
                             glyphs: None,
+                            source_ok: None,
                         });
                         OpOut::ok(bytes_digest(&bytes))
                     }
@@ -839,6 +883,7 @@ impl<'e, 'd> World<'e, 'd> {
                             bytes: bytes.clone(),
                             kind: WrittenKind::Instance,
                             glyphs: None,
+                            source_ok: None,
                         });
                         OpOut::ok(format!("{} {:?}", bytes_digest(&bytes), tuple))
                     }
@@ -969,6 +1014,9 @@ pub struct Written {
     pub bytes: Vec<u8>,
     pub kind: WrittenKind,
     pub glyphs: Option<usize>,
+    /// For subsets of a damaged source: whether the source outline of `ids[k]` could be
+    /// visited. A retained glyph that was readable in the source must be readable in the output.
+    pub source_ok: Option<Vec<bool>>,
 }
 
 /// C02: attachments refer to glyphs inside the run.
@@ -1192,6 +1240,7 @@ pub fn run_trace(
     let prop = trace.property.as_str();
     let mut digest = Fnv::new();
     let mut world = World::new(&env);
+    world.want_source_ok = prop == "C09" && !fault_free;
     alloc::reset_window();
     let live_before = alloc::live();
 
